@@ -18,22 +18,89 @@ from core import Obligation, load_table, props_of_function
 WRITERS = {"secp256k1_sha256_write": (1, 2), "secp256k1_hmac_sha256_write": (1, 2)}   # (hash object arg, data arg)
 
 
-def _item(fn, e, depth=0):
+_SKIP_ARG_TYPES = ("context", "hash_ctx", "callback", "sha256", "scratch")
+_PROG = [None]
+
+
+def _last_def(fn, name, at):
+    """The latest element before `at` (same block, then back along unique predecessors) that writes the local object
+    `name`: (element, call or rhs, kind).  None when it cannot be found that way."""
+    blk, idx = at.blk, at.idx
+    for _ in range(8):
+        b = fn.blocks[blk]
+        for el in reversed([x for x in b.elems if x.top and (idx is None or x.idx < idx)]):
+            for c in calls_in(el.e):
+                cn = callee_name(c)
+                for i, a in enumerate(c[3]):
+                    a0 = strip(a)
+                    if kind(a0) == "addr":
+                        a0 = strip(a0[1])
+                    if kind(a0) == "decay":
+                        a0 = strip(a0[1])
+                    if kind(a0) == "var" and a0[1] == name and not param_is_const_ptr(cn, i):
+                        return el, c, i
+            for (n, op, rhs, via) in defs_in_elem(el.e):
+                if n == name and via in ("assign", "decl") and rhs is not None:
+                    return el, rhs, None
+        preds = [p for p in b.preds if p is not None]
+        if len(preds) != 1:
+            return None
+        blk, idx = preds[0], None
+    return None
+
+
+def _item(fn, e, depth=0, at=None):
+    """Name of what is absorbed: the parameter(s) it is rooted in — directly, or through a local buffer that was last
+    filled from parameter-rooted inputs (`pubkey_load(ctx, &ge, &keys[i]); serialize33(&ge, c); sha256_write(.., c, 33)`
+    is the item keys) — or "local"."""
     r = lvalue_root(e)
     if r is not None and kind(r) == "var" and r[1] in fn.param_index:
         return "param%d(%s)" % (fn.param_index[r[1]], r[1])
-    if r is not None and kind(r) == "var" and depth < 4:
+    if r is not None and kind(r) == "var" and depth < 5:
         # a local pointer with a single definition rooted in a parameter is that parameter
         v = fn.vars.get(r[1])
         if v and v.get("ptr"):
             defs = [(op, rhs, via) for el in fn.elems() for (n, op, rhs, via) in defs_in_elem(el.e) if n == r[1]]
             if len(defs) == 1 and defs[0][0] == "=" and defs[0][2] in ("assign", "decl") and defs[0][1] is not None:
-                return _item(fn, defs[0][1], depth + 1)
+                return _item(fn, defs[0][1], depth + 1, at)
+        if at is not None and v and not v.get("ptr"):
+            pos = at
+            for _ in range(4):
+                d = _last_def(fn, r[1], pos)
+                if d is None:
+                    break
+                el, src, ai = d
+                items = set()
+                if ai is None:
+                    srcs = [x for x in walk(src) if kind(x) in ("var",)]
+                else:
+                    cn = callee_name(src)
+                    g = _PROG[0].functions.get(cn) if _PROG[0] else None
+                    srcs = []
+                    for i, a in enumerate(src[3]):
+                        if i == ai or is_int(a):
+                            continue
+                        if g is not None and i < len(g.params) and any(t in g.params[i]["type"] for t in _SKIP_ARG_TYPES):
+                            continue
+                        if g is not None and i < len(g.params) and g.params[i].get("ptr") and not g.params[i].get("pointee_const") and \
+                                (g.params[i].get("pointee_bytes") or 0) <= 8:
+                            continue          # another plain output of that call (byte buffer, int flag), not an input;
+                                              # non-const struct objects are in/out here (in-place normalisation) and stay inputs
+                        srcs.append(a)
+                for a in srcs:
+                    it = _item(fn, a, depth + 1, el)
+                    if it != "local":
+                        items.update(it.split("+"))
+                if items:
+                    return "+".join(sorted(items))
+                if ai is None:
+                    break
+                pos = el          # an in-place update (normalise, negate, ...) with no other input: look at the definition before it
     return "local"
 
 
 def _pos_key(item):
-    return item.split("(")[0]
+    return re.sub(r"\([^)]*\)", "", item)
 
 
 _CALL_ORDER = {}      # call id -> set of (k1, k2): inside that helper call, write k1 strictly precedes write k2
@@ -62,7 +129,7 @@ def _raw_writes(prog, f, memo, depth=0):
                     if len(c[3]) <= max(w):
                         continue
                     h = show(strip(c[3][w[0]]))
-                    per.setdefault(h, []).append((_item(f, c[3][w[1]]), b.id, el.idx, c[2], None, 0))
+                    per.setdefault(h, []).append((_item(f, c[3][w[1]], 0, el), b.id, el.idx, c[2], None, 0))
                     continue
                 g = prog.functions.get(cn)
                 if g is None or not _in_scope(g) or g.name == f.name or depth > 2 or g.file == "src/hash_impl.h":
@@ -80,12 +147,14 @@ def _raw_writes(prog, f, memo, depth=0):
                                 order.add((i, j))
                     _CALL_ORDER[cid] = order
                     for k, x in enumerate(ws):
-                        it = x[0]
-                        m = re.match(r"param(\d+)\(", it)
-                        if m and int(m.group(1)) < len(c[3]):
-                            it = _item(f, c[3][int(m.group(1))])
-                        elif m:
-                            it = "local"
+                        parts = set()
+                        for comp in x[0].split("+"):
+                            m = re.match(r"param(\d+)\(", comp)
+                            if m and int(m.group(1)) < len(c[3]):
+                                it = _item(f, c[3][int(m.group(1))], 0, el)
+                                if it != "local":
+                                    parts.update(it.split("+"))
+                        it = "+".join(sorted(parts)) if parts else "local"
                         per.setdefault(h, []).append((it, b.id, el.idx, c[2], cid, k))
     memo[f.name] = per
     return per
@@ -95,6 +164,7 @@ def transcripts(prog):
     """{function: {hash object: [(item, block, elem index, loc, call id, k)]}}"""
     out = {}
     memo = {}
+    _PROG[0] = prog
     for f in prog.functions.values():
         if not _in_scope(f):
             continue
@@ -117,11 +187,33 @@ def _before(f, a, b):
     return b[1] in ra and a[1] not in rb
 
 
+def _loop_heads(f):
+    dom = f.dominators()
+    return {h for u, b in f.blocks.items() for h in b.succs if h is not None and h in dom.get(u, ())}
+
+
+def _before_iter(f, a, b, heads):
+    """Inside one iteration of the enclosing loop(s): a precedes b on every path that does not go round a loop head."""
+    if not (f.is_loop_block(a[1]) and f.is_loop_block(b[1])):
+        return False
+    if a[1] == b[1]:
+        if a[2] == b[2] and a[4] is not None and a[4] == b[4]:
+            return (a[5], b[5]) in _CALL_ORDER.get(a[4], ())
+        return a[2] < b[2]
+    dom = f.dominators()
+    av = frozenset(h for h in heads if h in dom.get(a[1], ()) and h in dom.get(b[1], ()))
+    if not av:
+        return False
+    return b[1] in f.reachable_from(a[1], avoid=av) and a[1] not in f.reachable_from(b[1], avoid=av)
+
+
 def precedences(prog):
-    """{(function, hash, itemA, itemB)}: every write of A precedes every write of B."""
+    """{(function, hash, itemA, itemB)}: every write of A precedes every write of B — over the whole function, or (for
+    writes inside a loop; key suffix '@iter' on the hash) within every iteration."""
     out = {}
     for fname, per in transcripts(prog).items():
         f = prog.functions[fname]
+        heads = _loop_heads(f)
         for h, ws in per.items():
             items = sorted({_pos_key(w[0]) for w in ws})
             names = {}
@@ -135,6 +227,11 @@ def precedences(prog):
                     wb = [w for w in ws if _pos_key(w[0]) == B]
                     if all(_before(f, x, y) for x in wa for y in wb):
                         out[(fname, h, A, B)] = (names[A], names[B], wa[0][3], wb[0][3])
+                    else:
+                        la = [w for w in wa if f.is_loop_block(w[1])]
+                        lb = [w for w in wb if f.is_loop_block(w[1])]
+                        if la and lb and all(_before_iter(f, x, y, heads) for x in la for y in lb):
+                            out[(fname, h + "@iter", A, B)] = (names[A], names[B], la[0][3], lb[0][3])
     return out
 
 
@@ -143,6 +240,7 @@ def obligations(prog):
     cur = precedences(prog)
     tr = transcripts(prog)
     obs = []
+    reported_gone = set()
     for ent in table:
         fname, h, A, B = ent["function"], ent["hash"], ent["first"], ent["then"]
         f = prog.functions.get(fname)
@@ -154,11 +252,21 @@ def obligations(prog):
         if k in cur:
             obs.append(Obligation("R-ORD", oid, cur[k][2], fname, text, True, "%s at %s precedes %s at %s" % (cur[k][0], cur[k][2], cur[k][1], cur[k][3])))
         else:
-            ws = tr.get(fname, {}).get(h, [])
+            ws = tr.get(fname, {}).get(h.replace("@iter", ""), [])
             have = {_pos_key(w[0]) for w in ws}
             if A not in have or B not in have:
-                # the transcript changed shape (writes moved into a helper, item renamed): nothing to compare here;
-                # the instance floor decides whether too many precedences vanished
+                gone = [x for x in (A, B) if x not in have and x != "local"]
+                if ws and gone and "local" not in have:
+                    # every absorbed item of this transcript is resolved to the parameters it comes from, and a parameter
+                    # that used to be absorbed is not among them any more: an input dropped out of the hash
+                    if (fname, h.replace("@iter", ""), gone[0]) in reported_gone:
+                        continue
+                    reported_gone.add((fname, h.replace("@iter", ""), gone[0]))
+                    obs.append(Obligation("R-ORD", "R-ORD:%s:%s:absorbs:%s" % (fname, h.replace(" ", "").replace("@iter", ""), gone[0]), ws[0][3], fname,
+                                          "the transcript absorbed into %s must still include %s" % (h.replace("@iter", ""), ent.get("first_name", A) if gone[0] == A else ent.get("then_name", B)),
+                                          False, "absorbed now: %s — %s is no longer hashed" % (", ".join(sorted({w[0] for w in ws})), gone[0])))
+                # otherwise the transcript changed shape (writes moved, an item flows through a buffer the rule cannot
+                # trace): nothing to compare here; the instance floor decides whether too many precedences vanished
                 continue
             else:
                 la = [w[3] for w in ws if _pos_key(w[0]) == A]
